@@ -198,6 +198,7 @@ def step (s : S) (w : List String) : S × String :=
   | ["bcommit", b] => stepOp s (.bcommit b)
   | ["qget", h, k] => stepOp s (.qget (hashOf h) k)
   | ["sget", k, h] => stepOp s (.sget k (hashOf h))
+  | ["srem", k] => stepOp s (.srem k)
   | ["chain", n, pfx, prev, key, val] =>
     let n := n.toNat!
     let (s', _) := (List.range n).foldl (fun (acc : S × String) j =>
